@@ -208,3 +208,64 @@ Proof.
     assert (i = 0) by lia. congruence.
   - intros q n. cbn. split; [tauto|discriminate].
 Qed.
+
+(* ---------- more list facts ---------- *)
+Lemma layout_split pos rg q i n : In (q, i, n) (layout pos rg) ->
+  exists A v B, rg = A ++ (i, v) :: B /\ lenN v = n /\ q = pos + slen A.
+Proof.
+  revert pos; induction rg as [|[j p] t IH]; intros pos; cbn [layout In]; [tauto|].
+  intros [[= <- <- <-]|H].
+  - exists [], p, t. rewrite slen_nil. repeat split. lia.
+  - destruct (IH _ H) as (A & v & B & -> & Hn & Hq). exists ((j, p) :: A), v, B.
+    rewrite slen_cons. cbn [snd app]. repeat split; [assumption|lia].
+Qed.
+
+Lemma app_last_live (A0 : list region) i v A' F :
+  A0 ++ [(i, v)] = A' ++ F -> (forall i v, In (i, v) F -> i = 0) -> i <> 0 -> F = [] /\ A' = A0 ++ [(i, v)].
+Proof.
+  intros E HF Hi. induction F as [|x F' _] using rev_ind.
+  { rewrite app_nil_r in E. auto. }
+  rewrite app_assoc in E. apply app_inj_tail in E. destruct E as [_ <-].
+  exfalso. apply Hi. apply (HF i v). apply in_or_app. right. left. reflexivity.
+Qed.
+
+Lemma lrel_update l l' (L L' : list (N * N * N)) j X :
+  j <> 0 ->
+  (forall q i n, i <> 0 -> (In (q, i, n) L <-> live_at l i = Some (q, n))) ->
+  (forall i, live_at l' i = if i =? j then X else live_at l i) ->
+  (forall q i n, i <> 0 -> i <> j -> (In (q, i, n) L' <-> In (q, i, n) L)) ->
+  (forall q n, In (q, j, n) L' <-> X = Some (q, n)) ->
+  forall q i n, i <> 0 -> (In (q, i, n) L' <-> live_at l' i = Some (q, n)).
+Proof.
+  intros Hj HL HU HS HJ q i n Hi. rewrite HU. destruct (N.eqb_spec i j) as [->|Hij].
+  - apply HJ.
+  - rewrite HS by assumption. apply HL. assumption.
+Qed.
+
+Lemma skipn_skipn_add {A} (l : list A) x y : skipn x (skipn y l) = skipn (y + x) l.
+Proof.
+  revert l; induction y as [|y IH]; intros l; cbn [skipn Nat.add]; [reflexivity|].
+  destruct l; [now rewrite !skipn_nil|apply IH].
+Qed.
+
+(* two consecutive writes: a 16-byte header and the payload, into a gap or at the end *)
+Lemma place_in (pre g post hdr payload : bytes) P P2 :
+  P = length pre -> length hdr = 16%nat -> (16 + length payload <= length g)%nat -> P2 = (P + 16)%nat ->
+  bs_write (bs_write (pre ++ g ++ post) P hdr) P2 payload = pre ++ hdr ++ payload ++ skipn (16 + length payload) g ++ post.
+Proof.
+  intros -> Hh Hg ->.
+  rewrite <- (firstn_skipn 16 g) at 1. rewrite <- app_assoc.
+  rewrite bs_write_mid; [|reflexivity|rewrite firstn_length; lia].
+  rewrite <- (firstn_skipn (length payload) (skipn 16 g)) at 1.
+  rewrite <- app_assoc, (app_assoc pre hdr).
+  rewrite bs_write_mid; [|rewrite app_length; lia|rewrite firstn_length, skipn_length; lia].
+  rewrite <- app_assoc. do 3 f_equal. rewrite skipn_skipn_add. reflexivity.
+Qed.
+
+Lemma place_end (pre hdr payload : bytes) P P2 :
+  P = length pre -> length hdr = 16%nat -> P2 = (P + 16)%nat ->
+  bs_write (bs_write pre P hdr) P2 payload = pre ++ hdr ++ payload.
+Proof.
+  intros -> Hh ->. rewrite (bs_write_end pre hdr) by reflexivity.
+  rewrite bs_write_end by (rewrite app_length; lia). now rewrite <- app_assoc.
+Qed.
